@@ -18,7 +18,7 @@ SPEC_FORMS = ('old', 'forall', 'exists', 'implies', 'ite', 'pow2', 'typeis', 'is
               'str_indexof', 'str_at', 'str_suffixof', 'Eq', 'wsonly', 'lstripped', 'val_eq',
               'U', 'app', 'splice', 'Bst', 'appb', 'Bin', 'appbin', 'is_binstr', 'binval',
               'prefix_same', 'outside_same', 'chars_eq', 'allspaces', 'allchar', 'is_bool', 'oval',
-              'isdigits', 'str2int', 'same_dict', 'dval', 'gh', 'ghat', 'same_ghosts', 'npow2', 'asref', 'allzero_bytes')
+              'isdigits', 'str2int', 'same_dict', 'dval', 'gh', 'ghat', 'same_ghosts', 'npow2', 'asref', 'allzero_bytes', 'chars')
 
 
 def eval_call(eng, e, st, ctx):
@@ -449,6 +449,13 @@ def spec_form(eng, e, st, ctx):
         if ty is None:
             raise Unsupported('ghost sort %s' % rs)
         return SV(ty, z)
+    if name == 'chars':
+        # the character sequence of a bytes / text value (latin-1 view, L5)
+        x = ev1(a[0])
+        if x.ty in (STR, BYTES):
+            return SV(STR, x.z)
+        v = eng.coerce(x, VAL).z
+        return SV(STR, z3.If(Val.is_vbyt(v), Val.bval(v), Val.tval(v)))
     if name == 'asref':
         # asref(int expression, 'Class'): view an object identity kept in an integer ghost as a reference of that class
         return SV(Ref(a[1].value), ev1(a[0]).z)
@@ -1468,7 +1475,18 @@ def list_method(eng, ctx, st, obj, name, args, kwargs):
         if hook:
             yield st, hook(eng, ctx, st, obj, args[0])
             return
-        raise Unsupported('list.count')
+        # L6: list.count(x): 0 <= c <= len; c == len iff every element equals x (Python ==); c == 0 iff none does
+        n = eng.list_len(st, obj)
+        arr = eng.list_arr(st, obj)
+        x = eng.coerce(args[0], e)
+        c = fresh('count', z3.IntSort())
+        j = fresh('j', z3.IntSort())
+        eqj = eng.equal(st, SV(e, z3.Select(arr, j)), x)
+        st.assume(z3.And(c >= 0, c <= n,
+                         (c == n) == z3.ForAll([j], z3.Implies(z3.And(0 <= j, j < n), eqj), patterns=[z3.Select(arr, j)]),
+                         (c == 0) == z3.ForAll([j], z3.Implies(z3.And(0 <= j, j < n), z3.Not(eqj)), patterns=[z3.Select(arr, j)])))
+        yield st, SV(INT, c)
+        return
     if name == 'index':
         n = eng.list_len(st, obj)
         arr = eng.list_arr(st, obj)
